@@ -668,8 +668,8 @@ theorem Row.safe_field (r : Row) (h : r.safe = true) (lp eb cap usr : Nat) (hu :
   cases varLen <;> cases bits <;> cases overridable <;> cases storMacro <;> cases cS <;> cases cD <;>
     simp_all [Row.safe, Row.field, Row.cs, RCmp.safeFor, RCmp.toBits, okCmp, cmpBound, Cmp.bound, bitsStorBytes] <;> omega
 
-/-- … and an unsafe row that the model can express does not: DSDL capacity 16, user capacity 1 -/
-theorem Row.unsafe_field (r : Row) (h : r.safe = false) (lp eb : Nat) (f : Field) (hf : r.field lp eb 16 1 = some f) :
+/-- … and a row failing the criterion that the model can express does not: DSDL capacity 16, user capacity 1 -/
+theorem Row.rejected_field (r : Row) (h : r.safe = false) (lp eb : Nat) (f : Field) (hf : r.field lp eb 16 1 = some f) :
     okCmp r.cs f = false := by
   rcases r with ⟨kind, ov, le, varLen, bits, overridable, storMacro, cS, cD, lpc, ec⟩
   cases varLen <;> cases bits <;> cases overridable <;> cases storMacro <;> cases cS <;> cases cD <;>
